@@ -3,6 +3,7 @@
 -/
 import HvProofs.HyperV
 import HvProofs.HyperVTree
+import HvProofs.HyperVLoad
 namespace Hv.C17
 open Hv Hv.HyperV Hv.Extracted.hyperv
 
@@ -275,5 +276,46 @@ example : (exT1 ++ exT1old ++ exT2).all (fun s => decide (s.typ < 2 ^ 16 ∧ s.p
     = true := by decide
 example : (Value.uint (2 ^ 64 - 1)).inRange ∧ (Value.int (-5)).inRange ∧ (Value.str [104, 105]).inRange :=
   ⟨by simp [Value.inRange], by simp [Value.inRange], by simp [Value.inRange, validUnits, isHigh, isLow]⟩
+
+/-! ### (7) from the bytes of a written file: the object-table walk, and the file-level round trip -/
+
+/-- **load_registers_exactly** — the lemma "layout bytes ⇒ `load` registers exactly these tables": for every well-formed
+    physical description `d` (`Phys.WF`, decidable: two file headers of which the one with the larger sequence number — the
+    second on a tie — carries the signature, version 0x400 and the offset of a replay log; any number of object tables, the
+    first at 0x2000, whose *allocated* ObjectTable / KeyTable / ReplayLog entries point at an object table / a key-table
+    region of exactly the entry's size / a replay log of the description, while File, Free, unknown-type and unallocated
+    entries hold anything; key tables with any stored entries, ending exactly or with a zero terminator followed by
+    anything; blobs; all regions disjoint and inside the file), `HyperVFile.__init__` up to the linking phase succeeds
+    on the bytes `d.file` the writer lays out, and its registry is `registerAll d.regTables` — the key tables met by the
+    abstract breadth-first walk over the description (each object table once per offset, in first-in first-out order;
+    unallocated entries skipped; stale copies included, in walk order) — with exactly the File objects `d.regFos`. -/
+theorem load_registers_exactly (d : Phys) (h : d.WF) :
+    ∃ reg, load d.file = .ok reg ∧ reg.keyTables = registerAll d.regTables ∧ reg.fileObjects = d.regFos :=
+  load_encode d h
+
+/-- **hyperv_file_roundtrip** — `as_dict()` of the written file is the described tree: for every well-formed description `d`
+    (`Desc.WF`, decidable: a well-formed physical layout; among the key tables the walk registers every index has a
+    table with a strictly largest sequence number; every non-free entry of those tables has parent index 0 or names an
+    entry of a table in use, and a valid UTF-8 key; the entries with parent index 0 store the root children `d.cs` —
+    recursively: a Node's children are exactly the entries, in any table in use, whose parent reference is its (table
+    index, offset); values inline or in File objects) whose root children are Nodes, the model of
+    `HyperVFile(fh).as_dict()` on the bytes returns `d.tree`. Composed from `load_registers_exactly` and
+    `tree_decode_partial_registry`. -/
+theorem hyperv_file_roundtrip (d : Desc) (h : d.WF) (hn : d.rootsAreNodes = true) : asDict d.file = .ok d.tree :=
+  (tree_decode_encodes _ d.cs d.file (desc_encodes d h)).2 (rootsAreNodes_spec d hn)
+
+/-- **hyperv_file_roundtrip_typed**: the typed walk (`.type` / `.value` / `.children` from `HyperVFile.root` down) returns
+    the described tree also when leaf values sit directly below the root. -/
+theorem hyperv_file_roundtrip_typed (d : Desc) (h : d.WF) : typedTree d.file = .ok d.tree :=
+  (tree_decode_encodes _ d.cs d.file (desc_encodes d h)).1
+
+/-! non-vacuity: `exDesc` — two object tables (the second reached through the first, a self-reference ignored), second header
+    active, a counted replay-log entry, a stale copy of table 1 registered after the active one and once more unallocated,
+    a zero-terminated table with a tail, a string in a File object, free entries — is well formed; so `as_dict()` of
+    the bytes the writer lays out is its tree. -/
+example : exDesc.WF := by decide +kernel
+example : exDesc.phys.regTables.map (fun t => (t.index, t.seq)) = [(1, 5), (2, 9), (1, 1)] ∧ exDesc.phys.regFos = [(0x7000, 0x1000)] := by
+  decide +kernel
+example : asDict exDesc.file = .ok exDesc.tree := hyperv_file_roundtrip exDesc (by decide +kernel) (by decide +kernel)
 
 end Hv.C17
